@@ -224,8 +224,21 @@ Inductive access :=
 | AIter                   (* [v for v in obj]: obj[0], obj[1], ... until
                              IndexError (no __iter__ is defined) *)
 | AArray                  (* np.array(obj): obj.__array__() *)
-| ACast.                  (* np.array(obj, dtype=int): numpy casts what
+| ACast                   (* np.array(obj, dtype=...): numpy casts what
                              __array__ returns; the cache keeps the data *)
+| AMax | AMin             (* obj.max() / obj.min(): _fetch_ufunc_attr
+                             computes np.nanmax/nanmin(self.__array__()) *)
+| AMean.                  (* obj.mean(): same route; the value (a float
+                             division) is judged by the oracle only *)
+
+Definition list_max (l : list Z) : option Z :=
+  match l with [] => None | x :: r => Some (fold_left Z.max r x) end.
+Definition list_min (l : list Z) : option Z :=
+  match l with [] => None | x :: r => Some (fold_left Z.min r x) end.
+
+(* summary of an array: max / min; mean is left abstract ([]) *)
+Definition summary {A} (sel : list A -> option A) (l : list A) : res A :=
+  match sel l with Some v => ROne v | None => RErr end.
 
 Section ProxyAccess.
   Variable A : Type.
@@ -233,6 +246,7 @@ Section ProxyAccess.
   Variable bmap : list Z.
   Variable is_scalar : bool.
   Variable cast : A -> A.
+  Variable amax amin : list A -> option A.
 
   (* legacy iteration protocol: any IndexError ends the iteration *)
   Fixpoint proxy_iter (fuel : nat) (i : Z) (cache : option (list A))
@@ -262,17 +276,33 @@ Section ProxyAccess.
     | ACast =>
         let '(c', arr) := proxy_array A feat bmap is_scalar cache in
         (c', match arr with Some l => RMany (map cast l) | None => RErr end)
+    | AMax =>
+        let '(c', arr) := proxy_array A feat bmap is_scalar cache in
+        (c', match arr with Some l => summary amax l | None => RErr end)
+    | AMin =>
+        let '(c', arr) := proxy_array A feat bmap is_scalar cache in
+        (c', match arr with Some l => summary amin l | None => RErr end)
+    | AMean =>
+        let '(c', arr) := proxy_array A feat bmap is_scalar cache in
+        (c', match arr with
+             | Some [] => RErr
+             | Some _ => RMany []
+             | None => RErr
+             end)
     end.
 End ProxyAccess.
 
 (* stored data (h5py backed or numpy) *)
-Definition direct_access {A} (cast : A -> A) (d : list A) (ac : access)
-  : res A :=
+Definition direct_access {A} (cast : A -> A) (amax amin : list A -> option A)
+           (d : list A) (ac : access) : res A :=
   match ac with
   | AIndex ix => np_index d ix
   | AIter => RMany d
   | AArray => RMany d
   | ACast => RMany (map cast d)
+  | AMax => summary amax d
+  | AMin => summary amin d
+  | AMean => match d with [] => RErr | _ => RMany [] end
   end.
 
 (* fingerprints of scalars are 8 * value: truncation towards zero *)
@@ -754,6 +784,11 @@ Definition run_steps (steps : list step) : store :=
 
 Definition is_scalar_feat (f : Z) : bool := f <=? 3.
 
+(* np.array(obj, dtype=...): scalars are cast to int (truncation), images
+   etc. to a float type (no change of the values) *)
+Definition cast_of (f : Z) : Z -> Z :=
+  if is_scalar_feat f then trunc8 else (fun x => x).
+
 Definition enc (r : res Z) : list Z :=
   match r with
   | RErr => [2]
@@ -774,13 +809,15 @@ Definition run_query (st : store) (cs : caches) (q : Z * Z * access)
   | Some _ =>
       match lookup (fuel_of st) st (Z.to_nat fid) f with
       | None => (cs, [3])
-      | Some (ODirect d) => (cs, enc (direct_access trunc8 d ac))
+      | Some (ODirect d) =>
+          (cs, enc (direct_access (cast_of f) list_max list_min d ac))
       | Some (OProxy d m) =>
           let c := match assoc (ckey fid f) cs with
                    | Some c => c
                    | None => None
                    end in
-          let '(c', r) := proxy_access Z d m (is_scalar_feat f) trunc8 c ac in
+          let '(c', r) := proxy_access Z d m (is_scalar_feat f) (cast_of f)
+                                       list_max list_min c ac in
           ((ckey fid f, c') :: cs, enc r)
       end
   end.
@@ -953,13 +990,18 @@ Fixpoint find_basin (fs : fsys) (ok : Z -> bool) (parent : list Z)
       end
   end.
 
-(* a canonical instance for the correspondence: referrer in directory [1]
-   (moved to [2]), basin in the subdirectory [3] *)
-Definition run_find (moved : bool) : list Z :=
+(* the correspondence instance: referrer in directory [2] (possibly moved
+   there from [1]), basin stored as [abs [1;3;9]; rel [3;9]]; what lives at
+   the absolute and at the relative location: 0 nothing, 1 a dataset with
+   another identifier, 2 the basin *)
+Definition run_find (c : Z * Z) : list Z :=
+  let '(sabs, srel) := c in
+  let ident (s : Z) : option Z :=
+      if s =? 2 then Some 7 else if s =? 1 then Some 8 else None in
   let fs (p : list Z) : option Z :=
-      if moved then (if list_eqb p [2; 3; 9] then Some 7 else None)
-      else (if list_eqb p [1; 3; 9] then Some 7 else None) in
-  match find_basin fs (fun id => id =? 7) (if moved then [2] else [1])
+      if list_eqb p [1; 3; 9] then ident sabs
+      else if list_eqb p [2; 3; 9] then ident srel else None in
+  match find_basin fs (fun id => id =? 7) [2]
                    [LAbs [1; 3; 9]; LRel [3; 9]] with
   | Some (i, _) => [i]
   | None => [-1]
